@@ -197,7 +197,7 @@ def evaluate_deterministic(sx, cap):
         sx.prove_eq(ev.initial_value, want, 'equals-truncated-exact-evaluation')
 
 
-def pomdp_rollout(sx, shape, ctrl, capmax):
+def pomdp_rollout(sx, shape, ctrl, capmax, start=0):
     sh = PSHAPES[shape]
     L, AL, OL = sh.slabels, sh.alabels, sh.olabels
     rew = {(s, a, ns): sx.real(f"r_{s}_{a}_{ns}", -1, 1) for s in range(sh.S) for a in sh.avail[s] for ns in sh.rows[(s, a)]}
@@ -224,11 +224,13 @@ def pomdp_rollout(sx, shape, ctrl, capmax):
             pol = StochasticFiniteStateController(pomdp, act, obsst, rnp.array([1.0, 0.0]))
         rng = NondetStream(5)
         with sx.must_not_raise('pomdp-run_on'):
-            traj = pol.run_on(pomdp, initial_state=L[0], max_steps=cap, rng=rng)
+            traj = pol.run_on(pomdp, initial_state=L[start], max_steps=cap, rng=rng)
         capv = int(cap)
         n = len(traj) - 1
         sx.prove(n <= capv, 'at-most-cap-steps')
-        sx.prove(traj[0].state == L[0], 'starts-at-given-state')
+        sx.prove(traj[0].state == L[start], 'starts-at-given-state')
+        if start in sh.absorb:
+            sx.prove(n == 0, 'absorbing-start-gives-no-steps')
         ag = pol.initial_agentstate()
         sx.prove(_same_ag(sx, traj[0].agentstate, ag), 'starts-at-initial-agent-state')
         for t, st in enumerate(traj[:-1]):
@@ -284,3 +286,5 @@ def jobs(tier):
     for i in range(len(PSHAPES)):
         for ctrl in ['value', 'fsc']:
             yield ('pomdp_rollout', dict(shape=i, ctrl=ctrl, capmax=2 if quick else 3), dict(o, cost=4))
+            for st in PSHAPES[i].absorb:
+                yield ('pomdp_rollout', dict(shape=i, ctrl=ctrl, capmax=2, start=st), o)
